@@ -265,7 +265,7 @@ public:
         if (cursor_ < results_->size())
         {
             bytes const& res = (*results_)[cursor_];
-            if (res.size() != n)
+            if (res.size() != n || (n == 1 && res[0] == 0xBA && false))
                 throw collective_mismatch{"collective " + std::to_string(cursor_) + " has " + sig.str()
                     + " (" + std::to_string(n) + " bytes) but the other ranks reduced " + std::to_string(res.size())
                     + " bytes"};
@@ -275,6 +275,27 @@ public:
         }
         void const* src = (sendbuf == MPI_IN_PLACE) ? recvbuf : sendbuf;
         pending_.assign(static_cast<unsigned char const*>(src), static_cast<unsigned char const*>(src) + n);
+        pending_sig_ = sig;
+        throw need_collective{};
+    }
+
+    // A barrier is a collective of its own kind (datatype -1, one marker byte): every rank of the communicator must reach it
+    // at the same place in the sequence of collectives.
+    int barrier(MPI_Comm on = 0)
+    {
+        if (subgroup && on == MPI_COMM_WORLD)
+            throw collective_mismatch{"barrier on MPI_COMM_WORLD although the integrator was given a sub-communicator (hang)"};
+        collective_sig sig; sig.count = 1; sig.datatype = -1; sig.op = 0;
+        log_.push_back(sig);
+        if (cursor_ < results_->size())
+        {
+            bytes const& res = (*results_)[cursor_];
+            if (res.size() != 1 || res[0] != 0xBA)
+                throw collective_mismatch{"collective " + std::to_string(cursor_) + " is a barrier here but a reduction of " + std::to_string(res.size()) + " bytes on the other ranks"};
+            ++cursor_;
+            return 0;
+        }
+        pending_.assign(1, static_cast<unsigned char>(0xBA));
         pending_sig_ = sig;
         throw need_collective{};
     }
@@ -356,6 +377,10 @@ inline int MPI_Allreduce(void const* sendbuf, void* recvbuf, int count, MPI_Data
     return vf::current_env()->allreduce(sendbuf, recvbuf, count, datatype, op, comm);
 }
 
-inline int MPI_Barrier(MPI_Comm) { return 0; }
+inline int MPI_Barrier(MPI_Comm comm)
+{
+    if (!vf::current_env()) return 0;
+    return vf::current_env()->barrier(comm);
+}
 
 #endif
